@@ -129,6 +129,39 @@ pub fn contract_slice(cap: usize, w1: [u8; 3], l1: usize, w2: [u8; 3], l2: usize
     }
 }
 
+/// slice reference (`&mut &mut [u8]`): like the slice, and on release the referenced slice shrinks to exactly the
+/// initialized prefix -- also when nothing was written (view dropped unused).  The slice variable stays borrowed for
+/// its whole lifetime in safe code, so it is observed through a raw pointer afterwards.
+pub fn contract_slice_ref(cap: usize, w1: [u8; 3], l1: usize, w2: [u8; 3], l2: usize, use_it: bool) {
+    if cap > 4 || l1 > 3 || l2 > 3 {
+        return;
+    }
+    let mut backing = [0x55u8; 6];
+    let after_len;
+    let n;
+    {
+        let (front, _guard) = backing.split_at_mut(cap);
+        let mut slice: &mut [u8] = front;
+        let p: *mut &mut [u8] = &mut slice;
+        n = {
+            let r: &mut &mut [u8] = unsafe { &mut *p };
+            with_buffer(r, |mut b| {
+                if !use_it {
+                    return 0;
+                }
+                let r = script(&mut b, &w1[..l1], &w2[..l2], cap);
+                assert!(b.initialized().len() == r.0);
+                r.0
+            })
+        };
+        after_len = unsafe { (&*p).len() };
+    }
+    assert!(after_len == n);
+    for i in cap..6 {
+        assert!(backing[i] == 0x55);
+    }
+}
+
 /// nested view (&mut BufferRef as Buffer) and capped view (cap_at): the parent's count grows by what the child wrote,
 /// the cap limits the child.
 pub fn contract_nested_capped(cap: usize, at: usize, w1: [u8; 3], l1: usize, w2: [u8; 3], l2: usize) {
@@ -188,6 +221,17 @@ pub mod proofs {
         draw::assume(cap <= 4 && l1 <= 3 && l2 <= 3);
         draw::reached();
         contract_slice(cap, w1, l1, w2, l2);
+    });
+    harness!(bounded_buffer_slice_ref, unwind = 8, {
+        let cap = draw::usize();
+        let w1 = draw::bytes::<3>();
+        let l1 = draw::usize();
+        let w2 = draw::bytes::<3>();
+        let l2 = draw::usize();
+        let use_it = draw::bool();
+        draw::assume(cap <= 4 && l1 <= 3 && l2 <= 3);
+        draw::reached();
+        contract_slice_ref(cap, w1, l1, w2, l2, use_it);
     });
     harness!(bounded_buffer_nested_capped, unwind = 8, {
         let cap = draw::usize();
